@@ -22,9 +22,9 @@ func init() {
 			"Not decided: full state equality after recover; batch operations.",
 		TrustedBase: []string{"go/types, go/cfg", "anchor table (DESIGN.md §2.3)", "role derivation: alive-test = bool function comparing Entity.gen with pool memory without stores"},
 		Rules: []Rule{
-			{ID: "C10/R1", Run: c10r1, Min: 40},
-			{ID: "C10/R3", Run: c10r3, Min: 10},
-			{ID: "C10/R4", Run: c10r4, Min: 3},
+			{ID: "C10/R1", Run: c10r1, Min: 1},
+			{ID: "C10/R3", Run: c10r3, Min: 1},
+			{ID: "C10/R4", Run: c10r4, Min: 1},
 		},
 	})
 }
